@@ -58,9 +58,32 @@ def node_kinds(e, acc=None):
     return acc
 
 
+def chain(prog):
+    """conversion-style chains f(g(literal)): 'f<g<lit:type[:shape]' (used to make signatures specific)"""
+    names = []
+    e = prog
+    while isinstance(e, dict) and e.get("k") == "call" and len(e.get("args", [])) == 1:
+        names.append(e["f"])
+        e = e["args"][0]
+    if not names or not (isinstance(e, dict) and e.get("k") == "lit"):
+        return None
+    v = e["v"]
+    shape = v["t"]
+    if v["t"] == "string":
+        text = "".join(chr(c) for c in v["v"])
+        import re
+        if re.fullmatch(r"\d{4}-\d\d-\d\d[Tt ]\d\d:\d\d:\d\d(\.\d+)?[+-]\d\d:\d\d", text):
+            shape += ":rfc3339-with-offset"
+        elif re.fullmatch(r"\d{4,}-\d\d-\d\d.\d\d:\d\d:\d\d(\.\d+)?[Zz]", text):
+            shape += ":rfc3339-utc"
+        elif re.fullmatch(r"[-+]?\d+", text):
+            shape += ":integer-text"
+    return "<".join(names) + "<lit:" + shape
+
+
 def sig(prog, exp_abs, got_abs, runner):
     kinds = node_kinds(prog)
-    root = kinds[0] if kinds else "lit"
+    root = chain(prog) or (kinds[0] if kinds else "lit")
     got = kind_of(got_abs)
     if got_abs["t"] == "exc":
         got = "exc:%s@%s" % (got_abs["cls"], got_abs["phase"])
